@@ -137,6 +137,15 @@ func c09Scenarios(thorough bool) []*Scenario {
 			Requests: []SetReqOrCall{rollbackReq("rollback(7)", 7), a("1")}},
 		{Name: "S5two two Sets on T1 offline, then the device connects", Cfg: WorldConfig{Targets: []string{"T1"}},
 			Requests: []SetReqOrCall{a("1"), setReq("T1.leafA2=2", upd("T1", "/cont/leafA2", "2"))}, Faults: []FaultSpec{faultConnUp("T1")}, FaultBudget: 1},
+		// non-initial start state: both changes are committed and wait to be applied when the device shows up; what
+		// is explored is every delivery order of the connection, mastership, synchronisation and apply work
+		{Name: "S5p two Sets committed on T1 while offline (before the exploration starts); then the device connects", Cfg: WorldConfig{Targets: []string{"T1"}},
+			Prefix: []func(w *World) *Call{
+				func(w *World) *Call { return w.GoSet(bgCtx(), a("1").Set) },
+				func(w *World) *Call {
+					return w.GoSet(bgCtx(), setReq("T1.leafA2=2", upd("T1", "/cont/leafA2", "2")).Set)
+				}},
+			Faults: []FaultSpec{faultConnUp("T1")}, FaultBudget: 1},
 		{Name: "S9 Set on T1, Set on T2, Set on T1 (non-consecutive indexes per target), offline", Cfg: WorldConfig{Targets: []string{"T1", "T2"}}, MaxStates: 150000,
 			Requests: []SetReqOrCall{a("1"), setReq("T2.leafA=2", upd("T2", "/cont/leafA", "2")), a("3")}},
 		{Name: "S6u two Sets on T1, device unavailable once", Cfg: WorldConfig{Targets: []string{"T1"}},
